@@ -54,6 +54,18 @@ impl Plan {
     }
 }
 
+/// Element values of the big-alphabet subjects (members / keys): the extremes of u8, values that coincide with actor
+/// identities of several layouts (0, 1, 2, 3, 16, 100, 128, 255, ...) and values that do not.  The first three are the "hot" ones.
+pub const BIG_VALUES: [u8; 16] = [0, 255, 1, 2, 128, 3, 127, 254, 4, 5, 16, 200, 6, 7, 100, 253];
+/// the element universe for an alphabet of size n: 0..n for the small (default) alphabets, a prefix of BIG_VALUES otherwise
+pub fn universe(n: usize) -> Vec<u8> {
+    if n <= 3 {
+        (0..n as u8).collect()
+    } else {
+        BIG_VALUES[..n.min(16)].to_vec()
+    }
+}
+
 /// monotone index mapping: i in 0..65536 -> 0..n
 #[inline]
 pub fn idx(i: u16, n: usize) -> usize {
